@@ -91,14 +91,20 @@ impl MultiPeerBackend for SubSocketBackend {
             .iter()
             .map(|x| SubSocketBackend::create_subs_message(x, SubBackendMsgType::SUBSCRIBE))
             .collect();
+        #[cfg(feature = "verif-hooks")]
+        crate::verif_hooks::yield_point("sub.peer_connected.after_snapshot").await;
 
         for message in subs_msgs {
             send_queue.send(Message::Message(message)).await.unwrap();
         }
+        #[cfg(feature = "verif-hooks")]
+        crate::verif_hooks::yield_point("sub.peer_connected.after_resubscribe").await;
 
         self.peers
             .upsert_async(peer_id.clone(), Peer { send_queue })
             .await;
+        #[cfg(feature = "verif-hooks")]
+        crate::verif_hooks::yield_point("sub.peer_connected.after_upsert").await;
         self.round_robin.push(peer_id.clone());
         match &self.fair_queue_inner {
             None => {}
@@ -131,12 +137,16 @@ impl Drop for SubSocket {
 impl SubSocket {
     pub async fn subscribe(&mut self, subscription: &str) -> ZmqResult<()> {
         self.backend.subs.lock().insert(subscription.to_string());
+        #[cfg(feature = "verif-hooks")]
+        crate::verif_hooks::yield_point("sub.subscribe.after_set_update").await;
         self.process_subs(subscription, SubBackendMsgType::SUBSCRIBE)
             .await
     }
 
     pub async fn unsubscribe(&mut self, subscription: &str) -> ZmqResult<()> {
         self.backend.subs.lock().remove(subscription);
+        #[cfg(feature = "verif-hooks")]
+        crate::verif_hooks::yield_point("sub.unsubscribe.after_set_update").await;
         self.process_subs(subscription, SubBackendMsgType::UNSUBSCRIBE)
             .await
     }
@@ -153,6 +163,8 @@ impl SubSocket {
             peer.send_queue
                 .send(Message::Message(message.clone()))
                 .await?;
+            #[cfg(feature = "verif-hooks")]
+            crate::verif_hooks::yield_point("sub.process_subs.between_peers").await;
             iter = peer.next_async().await;
         }
         Ok(())
